@@ -444,7 +444,7 @@ Theorem residual_check_sound_proof g alpha y p eps :
     (norm1 (length g) (fun j => V p j / vsum (length g) (V p) - xs j / vsum (length g) xs) <= eps)%Q.
 Proof.
   unfold residual_check, residual_parts. set (n := length g).
-  set (den := Qred (1 - alpha * bsum n (fun i => has_out g i * V p i))%Q).
+  set (den := Qred (bsum n (V p) - alpha * bsum n (fun i => has_out g i * V p i))%Q).
   set (c := Qred ((1 - alpha) / den)%Q).
   set (x := vscale c p).
   set (r := Qred (norm1 n (fun j => V x j - (mv n (Ma (normalize g) alpha) (V x) j + (1 - alpha) * V y j)))%Q).
@@ -463,7 +463,7 @@ Proof.
   assert (Hs' : (delta < Qabs (vsum n (V x)))%Q). { unfold s in Hds. rewrite Qred_correct in Hds. exact Hds. }
   destruct (normalized_distance n (V x) xs delta Hr Hs') as [HT Hnd].
   assert (HSx : ~ (vsum n (V x) == 0)%Q).
-  { intros E. rewrite E in Hs'. cbn in Hs'.
+  { intros E. rewrite E in Hs'. change (Qabs 0) with 0%Q in Hs'.
     assert (H0 := norm1_nonneg n (fun j => V x j - xs j)%Q). lra. }
   assert (Hxc : forall j, (V x j == c * V p j)%Q) by (intros j; unfold x; apply V_vscale).
   assert (Hsc : (vsum n (V x) == c * vsum n (V p))%Q).
@@ -483,4 +483,699 @@ Proof.
   { assert (Hd0 : (0 <= delta)%Q) by (eapply Qle_trans; [apply (norm1_nonneg n (fun j => V x j - xs j)%Q)|exact Hr]). nra. }
   assert (Hfin : (N * (a * (a - delta)) <= eps * (a * (a - delta)))%Q) by lra.
   apply Qmult_le_r in Hfin; assumption.
+Qed.
+
+(* ------------------------------------------------------------------------------------------ *)
+(** * The random-surfer operator as coded *)
+
+Lemma surfer_matvec_length g alpha y x : length (surfer_matvec g alpha y x) = length g.
+Proof. unfold surfer_matvec. apply tab_length. Qed.
+
+Lemma surfer_matvec_spec g alpha y x j :
+  j < length g ->
+  (V (surfer_matvec g alpha y x) j == surfer_fun (length g) g (normalize g) alpha (V y) (V x) j)%Q.
+Proof.
+  intros Hj. unfold surfer_matvec. rewrite V_tab by exact Hj. rewrite Qred_correct. unfold surfer_fun. reflexivity.
+Qed.
+
+(** The coded operator is the transition kernel of the surfer of the property text. *)
+Lemma surfer_fun_kernel n g alpha (y x : vec) j :
+  (surfer_fun n g (normalize g) alpha y x j == mv n (surfer_kernel (P g) (has_out g) alpha y) x j)%Q.
+Proof.
+  unfold surfer_fun, surfer_kernel, mv, restart, Ma, P.
+  rewrite <- bsum_scale. rewrite <- bsum_plus. apply bsum_ext. intros i _. ring.
+Qed.
+
+Lemma surfer_mass g alpha (y x : vec) :
+  good_graph g -> (0 <= alpha)%Q -> (vsum (length g) y == 1)%Q ->
+  (vsum (length g) (surfer_fun (length g) g (normalize g) alpha y x) == vsum (length g) x)%Q.
+Proof.
+  intros [Hwf Hnn] Ha Hy. set (n := length g) in *.
+  destruct (Ma_facts g alpha Hwf Hnn Ha) as (_ & _ & Hc). fold n in Hc.
+  unfold vsum, surfer_fun. rewrite bsum_plus. rewrite bsum_scale_r.
+  unfold vsum in Hy. rewrite Hy. unfold mv. rewrite bsum_swap.
+  rewrite (bsum_ext n (fun j => bsum n (fun i => Ma (normalize g) alpha i j * x j))%Q
+                      (fun j => (alpha * has_out g j) * x j)%Q).
+  2:{ intros j _. rewrite bsum_scale_r. rewrite Hc. reflexivity. }
+  rewrite Qmult_1_l. rewrite <- bsum_plus. apply bsum_ext. intros i _. unfold restart. ring.
+Qed.
+
+Lemma fixed_point_is_pagerank g alpha (y x : vec) :
+  good_graph g -> (0 <= alpha < 1)%Q ->
+  (vsum (length g) x == 1)%Q ->
+  (forall j, j < length g -> (surfer_fun (length g) g (normalize g) alpha y x j == x j)%Q) ->
+  is_pagerank (length g) (P g) alpha y x.
+Proof.
+  intros [Hwf Hnn] [Ha0 Ha1] Hsx Hfix. set (n := length g) in *.
+  destruct (Ma_facts g alpha Hwf Hnn Ha0) as (Hp & Hcs & _). fold n in Hp, Hcs.
+  set (c := bsum n (fun i => restart g alpha i * x i)%Q).
+  assert (Hx : forall j, j < n -> (x j == mv n (Ma (normalize g) alpha) x j + y j * c)%Q).
+  { intros j Hj. rewrite <- (Hfix j Hj) at 1. unfold surfer_fun. fold c. reflexivity. }
+  assert (Hc : ~ (c == 0)%Q).
+  { intros E.
+    assert (Hz : forall j, j < n -> (x j == (fun _ => 0%Q) j)%Q).
+    { apply (fixed_point_unique n (Ma (normalize g) alpha) alpha (fun _ => 0%Q)); try assumption.
+      - intros j Hj. rewrite (Hx j Hj) at 1. rewrite E. ring.
+      - intros j Hj. unfold mv. rewrite bsum_0; [ring|]. intros; ring. }
+    assert (H0 : (vsum n x == 0)%Q) by (apply bsum_0; exact Hz). rewrite H0 in Hsx. lra. }
+  set (k := ((1 - alpha) / c)%Q).
+  assert (Hk : ~ (k == 0)%Q).
+  { unfold k. intros E. apply (Qmult_inj_r _ _ c Hc) in E. unfold Qdiv in E.
+    rewrite <- Qmult_assoc, (Qmult_comm (/ c)), Qmult_inv_r in E by exact Hc. lra. }
+  exists (fun j => k * x j)%Q. split; [|split].
+  - intros j Hj. rewrite mv_scale. rewrite (Hx j Hj) at 1. unfold k. unfold PT, P. change (fun j0 i : nat => alpha * Pn (normalize g) i j0)%Q with (Ma (normalize g) alpha). field. exact Hc.
+  - unfold vsum. rewrite bsum_scale. unfold vsum in Hsx. rewrite Hsx. lra.
+  - intros j Hj. unfold vsum. rewrite bsum_scale. unfold vsum in Hsx. rewrite Hsx. field. exact Hk.
+Qed.
+
+(** A stationary distribution of the surfer's chain is the PageRank vector. *)
+Lemma stationary_is_pagerank g alpha (y p : vec) :
+  good_graph g -> (0 <= alpha < 1)%Q ->
+  is_stationary (length g) (surfer_kernel (P g) (has_out g) alpha y) p ->
+  is_pagerank (length g) (P g) alpha y p.
+Proof.
+  intros Hg Ha [Hs Hst]. apply fixed_point_is_pagerank; try assumption.
+  intros j Hj. rewrite surfer_fun_kernel. symmetry. apply Hst. exact Hj.
+Qed.
+
+Lemma V_div l s j : (V (map (fun x => Qred (x / s)) l) j == V l j / s)%Q.
+Proof. apply (V_map_Qred (fun x => x / s)%Q). unfold Qdiv. ring. Qed.
+
+Lemma lsum_spec l : (lsum l == vsum (length l) (V l))%Q.
+Proof. unfold lsum. apply Qred_correct. Qed.
+
+Lemma vnormalize_spec l j : (V (vnormalize l) j == V l j / vsum (length l) (V l))%Q.
+Proof. unfold vnormalize. rewrite V_div. rewrite lsum_spec. reflexivity. Qed.
+
+Lemma surfer_matvec_mass g alpha y x :
+  good_graph g -> (0 <= alpha)%Q -> (vsum (length g) (V y) == 1)%Q ->
+  (vsum (length g) (V (surfer_matvec g alpha y x)) == vsum (length g) (V x))%Q.
+Proof.
+  intros Hg Ha Hy. rewrite <- (surfer_mass g alpha (V y) (V x) Hg Ha Hy).
+  apply bsum_ext. intros j Hj. apply surfer_matvec_spec. exact Hj.
+Qed.
+
+Theorem piteration_fixed_point_proof g alpha y x :
+  good_graph g -> (0 <= alpha < 1)%Q ->
+  (vsum (length g) (V y) == 1)%Q -> (vsum (length g) (V x) == 1)%Q ->
+  (forall j, j < length g -> (V (piteration_step (surfer_matvec g alpha y) x) j == V x j)%Q) ->
+  is_pagerank (length g) (P g) alpha (V y) (V x).
+Proof.
+  intros Hg Ha Hy Hx Hfix. apply fixed_point_is_pagerank; try assumption.
+  intros j Hj. rewrite <- (Hfix j Hj). unfold piteration_step. rewrite vnormalize_spec.
+  rewrite surfer_matvec_length. rewrite (surfer_matvec_mass g alpha y x Hg (proj1 Ha) Hy). rewrite Hx.
+  rewrite surfer_matvec_spec by exact Hj. field.
+Qed.
+
+(** The operator before the repair: its normalised fixed point on 0 -> 1 (uniform restart,
+    alpha = 4/7) is (1/4, 3/4), whereas the PageRank vector is (7/18, 11/18). *)
+Theorem old_operator_refuted_proof :
+  exists (g : wgraph) (alpha : Q) (y x xs : list Q),
+    good_graph g /\ (0 <= alpha < 1)%Q /\ (vsum (length g) (V y) == 1)%Q /\ (vsum (length g) (V x) == 1)%Q /\
+    piteration_step (old_surfer_matvec g alpha y) x = x /\
+    solution_check g alpha y xs = true /\
+    ~ (V x O == V xs O / vsum (length g) (V xs))%Q /\
+    piteration_step (surfer_matvec g alpha y) (vnormalize xs) = vnormalize xs.
+Proof.
+  exists [[(1, 1%Q)]; []], (4 # 7)%Q, [1 # 2; 1 # 2]%Q, [1 # 4; 3 # 4]%Q, [3 # 14; 33 # 98]%Q.
+  repeat split; try reflexivity; try (cbn; lra); try (vm_compute; congruence).
+Qed.
+
+(* ------------------------------------------------------------------------------------------ *)
+(** * Horner's scheme (Polynome._matvec) and the RH solver *)
+
+(** [veq n l f]: the list l represents the vector f on n coordinates. *)
+Definition veq (n : nat) (l : list Q) (f : vec) : Prop := length l = n /\ forall j, j < n -> (V l j == f j)%Q.
+
+Lemma V_map2_Qred (f : Q -> Q -> Q) a b j :
+  j < length a -> j < length b -> (V (map2 (fun x y => Qred (f x y)) a b) j == f (V a j) (V b j))%Q.
+Proof.
+  intros Ha Hb. unfold V, nthq.
+  rewrite (nth_map2 (fun x y => Qred (f x y)) a b j 0%Q 0%Q 0%Q Ha Hb). apply Qred_correct.
+Qed.
+
+Lemma veq_vadd n a b f g : veq n a f -> veq n b g -> veq n (vadd a b) (fun j => f j + g j)%Q.
+Proof.
+  intros [La Ha] [Lb Hb]. split.
+  - unfold vadd. rewrite map2_length, La, Lb. apply Nat.min_id.
+  - intros j Hj. unfold vadd. rewrite (V_map2_Qred Qplus) by lia. rewrite (Ha j Hj), (Hb j Hj). reflexivity.
+Qed.
+
+Lemma veq_vscale n c a f : veq n a f -> veq n (vscale c a) (fun j => c * f j)%Q.
+Proof.
+  intros [La Ha]. split; [rewrite vscale_length; exact La|].
+  intros j Hj. rewrite V_vscale. rewrite (Ha j Hj). reflexivity.
+Qed.
+
+Lemma veq_mvl n M a f : veq n a f -> veq n (mvl n M a) (mv n M f).
+Proof.
+  intros [La Ha]. split; [apply tab_length|].
+  intros j Hj. unfold mvl. rewrite V_tab by exact Hj. apply mv_ext. exact Ha.
+Qed.
+
+Lemma veq_ext n a f g : veq n a f -> (forall j, j < n -> (f j == g j)%Q) -> veq n a g.
+Proof. intros [La Ha] H. split; [exact La|]. intros j Hj. rewrite (Ha j Hj). apply H. exact Hj. Qed.
+
+Lemma veq_V l : veq (length l) l (V l).
+Proof. split; [reflexivity|]. intros; reflexivity. Qed.
+
+Lemma pow_mv_ext n M k z z' :
+  (forall j, j < n -> (z j == z' j)%Q) -> forall j, j < n -> (pow_mv n M k z j == pow_mv n M k z' j)%Q.
+Proof.
+  induction k as [|k IH]; intros H j Hj; cbn [pow_mv]; [apply H; exact Hj|].
+  apply mv_ext. intros i Hi. apply IH; assumption.
+Qed.
+
+Lemma pow_mv_lin n M k (u v : vec) a j :
+  j < n -> (pow_mv n M k (fun i => u i + a * v i) j == pow_mv n M k u j + a * pow_mv n M k v j)%Q.
+Proof.
+  revert j. induction k as [|k IH]; intros j Hj; cbn [pow_mv]; [reflexivity|].
+  rewrite (mv_ext n M _ (fun i => pow_mv n M k u i + a * pow_mv n M k v i)%Q) by exact IH.
+  rewrite mv_plus, mv_scale. reflexivity.
+Qed.
+
+Lemma pow_mv_shift n M k z j : j < n -> (pow_mv n M k (mv n M z) j == pow_mv n M (S k) z j)%Q.
+Proof.
+  revert j. induction k as [|k IH]; intros j Hj; cbn [pow_mv]; [reflexivity|].
+  apply mv_ext. intros i Hi. rewrite (IH i Hi). reflexivity.
+Qed.
+
+(** One pass of the loop body over the remaining (descending) coefficients. *)
+Lemma horner_fold n M (x : list Q) (rest : list Q) (y : list Q) (fy : vec) :
+  length x = n -> veq n y fy ->
+  veq n (fold_left (fun y a => vadd (mvl n M y) (vscale a x)) rest y)
+        (fun j => pow_mv n M (length rest) fy j
+                  + bsum (length rest) (fun k => nthq (rev rest) k * pow_mv n M k (V x) j))%Q.
+Proof.
+  intros Lx. revert y fy. induction rest as [|a rest IH]; intros y fy Hy.
+  - cbn [fold_left length bsum pow_mv]. eapply veq_ext; [exact Hy|]. intros; lra.
+  - cbn [fold_left].
+    assert (Hstep : veq n (vadd (mvl n M y) (vscale a x)) (fun j => mv n M fy j + a * V x j)%Q).
+    { apply veq_vadd; [apply veq_mvl; exact Hy|]. apply veq_vscale. rewrite <- Lx. apply veq_V. }
+    eapply veq_ext; [apply (IH _ _ Hstep)|].
+    intros j Hj. cbn [length bsum rev].
+    rewrite (pow_mv_lin n M (length rest) (mv n M fy) (V x) a j Hj).
+    rewrite (pow_mv_shift n M (length rest) fy j Hj).
+    assert (Hlast : nthq (rev rest ++ [a]) (length rest) = a).
+    { unfold nthq. rewrite app_nth2 by (rewrite rev_length; lia). rewrite rev_length, Nat.sub_diag. reflexivity. }
+    rewrite Hlast.
+    rewrite (bsum_ext (length rest) (fun k => nthq (rev rest ++ [a]) k * pow_mv n M k (V x) j)%Q
+                      (fun k => nthq (rev rest) k * pow_mv n M k (V x) j)%Q).
+    2:{ intros k Hk. unfold nthq. rewrite app_nth1 by (rewrite rev_length; exact Hk). reflexivity. }
+    ring.
+Qed.
+
+Theorem horner_eq_power_sum_proof n M (coeffs x : list Q) :
+  length x = n -> coeffs <> [] ->
+  veq n (horner (mvl n M) coeffs x) (power_sum n M coeffs (V x)).
+Proof.
+  intros Lx Hne. unfold horner.
+  destruct (rev coeffs) as [|c rest] eqn:E.
+  { exfalso. apply Hne. apply (f_equal (@rev Q)) in E. rewrite rev_involutive in E. exact E. }
+  assert (Hc : coeffs = rev rest ++ [c]).
+  { apply (f_equal (@rev Q)) in E. rewrite rev_involutive in E. exact E. }
+  assert (H0 : veq n (vscale c x) (fun j => c * V x j)%Q).
+  { apply veq_vscale. rewrite <- Lx. apply veq_V. }
+  eapply veq_ext; [apply (horner_fold n M x rest _ _ Lx H0)|].
+  intros j Hj. unfold power_sum. subst coeffs. rewrite app_length, rev_length. cbn [length]. rewrite Nat.add_1_r.
+  cbn [bsum].
+  assert (Hlast : nthq (rev rest ++ [c]) (length rest) = c).
+  { unfold nthq. rewrite app_nth2 by (rewrite rev_length; lia). rewrite rev_length, Nat.sub_diag. reflexivity. }
+  rewrite Hlast.
+  rewrite (bsum_ext (length rest) (fun k => nthq (rev rest ++ [c]) k * pow_mv n M k (V x) j)%Q
+                    (fun k => nthq (rev rest) k * pow_mv n M k (V x) j)%Q).
+  2:{ intros k Hk. unfold nthq. rewrite app_nth1 by (rewrite rev_length; exact Hk). reflexivity. }
+  assert (Hsc : (pow_mv n M (length rest) (fun j0 => c * V x j0) j == c * pow_mv n M (length rest) (V x) j)%Q).
+  { assert (H := pow_mv_lin n M (length rest) (fun _ => 0%Q) (V x) c j Hj).
+    rewrite (pow_mv_ext n M (length rest) (fun j0 => c * V x j0)%Q (fun i => 0 + c * V x i)%Q) by (intros; try ring; assumption).
+    rewrite H.
+    assert (Hz : forall k i, i < n -> (pow_mv n M k (fun _ => 0%Q) i == 0)%Q).
+    { induction k as [|k IHk]; intros i Hi; cbn [pow_mv]; [reflexivity|].
+      unfold mv. apply bsum_0. intros u Hu. rewrite (IHk u Hu). ring. }
+    rewrite (Hz _ j Hj). ring. }
+  rewrite Hsc. ring.
+Qed.
+
+Lemma mv_bsum n M m (F : nat -> vec) i :
+  (mv n M (fun j => bsum m (fun k => F k j)) i == bsum m (fun k => mv n M (F k) i))%Q.
+Proof.
+  unfold mv.
+  rewrite (bsum_ext n _ (fun j => bsum m (fun k => M i j * F k j))%Q) by (intros j _; rewrite bsum_scale; reflexivity).
+  apply bsum_swap.
+Qed.
+
+Lemma bsum_telescope m (a : nat -> Q) : (bsum m (fun k => a k - a (S k)) == a O - a m)%Q.
+Proof. induction m as [|m IH]; cbn [bsum]; [ring|]. rewrite IH. ring. Qed.
+
+Lemma apow_nonneg a k : (0 <= a)%Q -> (0 <= apow a k)%Q.
+Proof. intros Ha. induction k as [|k IH]; cbn [apow]; [lra|nra]. Qed.
+
+Lemma pow_contract n M alpha k z :
+  nonneg_mat n M -> colsum_le n M alpha -> (0 <= alpha)%Q ->
+  (norm1 n (pow_mv n M k z) <= apow alpha k * norm1 n z)%Q.
+Proof.
+  intros Hp Hc Ha. induction k as [|k IH]; cbn [pow_mv apow]; [lra|].
+  assert (H := norm1_contract_gen n M alpha (pow_mv n M k z) Hp Hc).
+  assert (H0 := apow_nonneg alpha k Ha). nra.
+Qed.
+
+Lemma nthq_repeat c m k : k < m -> nthq (repeat c m) k = c.
+Proof. revert k. induction m as [|m IH]; intros [|k] H; cbn; try lia; auto. apply IH. lia. Qed.
+
+(** RH returns the truncated Neumann series, whose residual decays like alpha^(K+1). *)
+Theorem rh_error_proof g alpha y K :
+  good_graph g -> (0 <= alpha)%Q -> length y = length g ->
+  let n := length g in
+  let M := PT alpha (P g) in
+  let s := rh g alpha y K in
+  veq n s (fun j => bsum (S K) (fun k => pow_mv n M k (V y) j)) /\
+  (norm1 n (fun j => V s j - (mv n M (V s) j + V y j)) <= apow alpha (S K) * norm1 n (V y))%Q.
+Proof.
+  intros [Hwf Hnn] Ha Ly n M s.
+  destruct (Ma_facts g alpha Hwf Hnn Ha) as (Hp & Hc & _).
+  change (Ma (normalize g) alpha) with M in Hp, Hc. fold n in Hp, Hc.
+  assert (Hs : veq n s (fun j => bsum (S K) (fun k => pow_mv n M k (V y) j))).
+  { unfold s, rh. eapply veq_ext.
+    - apply (horner_eq_power_sum_proof n (Ma (normalize g) alpha) (repeat 1%Q (S K)) y Ly). discriminate.
+    - intros j Hj. unfold power_sum. rewrite repeat_length. apply bsum_ext. intros k Hk.
+      rewrite nthq_repeat by exact Hk. change (Ma (normalize g) alpha) with M. ring. }
+  split; [exact Hs|].
+  destruct Hs as [Ls Hs].
+  assert (Hres : forall j, j < n -> (V s j - (mv n M (V s) j + V y j) == - pow_mv n M (S K) (V y) j)%Q).
+  { intros j Hj.
+    rewrite (mv_ext n M (V s) (fun i => bsum (S K) (fun k => pow_mv n M k (V y) i)) Hs j).
+    rewrite mv_bsum. rewrite (Hs j Hj).
+    assert (Ht := bsum_telescope (S K) (fun k => pow_mv n M k (V y) j)).
+    rewrite bsum_minus in Ht. cbn [pow_mv] in Ht. cbn [pow_mv].
+    set (B1 := bsum (S K) (fun i : nat => mv n M (pow_mv n M i (V y)) j)) in Ht.
+    change (bsum (S K) (fun k : nat => mv n M (fun j0 : nat => pow_mv n M k (V y) j0) j)) with B1. lra. }
+  rewrite (norm1_ext n _ _ Hres).
+  rewrite (bsum_ext n (fun i => Qabs (- pow_mv n M (S K) (V y) i)) (fun i => Qabs (pow_mv n M (S K) (V y) i)))
+    by (intros; apply Qabs_opp).
+  apply (pow_contract n M alpha (S K) (V y) Hp Hc Ha).
+Qed.
+
+(** Hence (1 - alpha) * RH is within alpha^(K+1) |y|_1 of the solution of x = alpha P^T x + (1-alpha) y. *)
+Theorem rh_close_to_solution g alpha y K (xs : vec) :
+  good_graph g -> (0 <= alpha < 1)%Q -> length y = length g ->
+  is_solution (length g) (P g) alpha (V y) xs ->
+  (norm1 (length g) (fun j => (1 - alpha) * V (rh g alpha y K) j - xs j) <= apow alpha (S K) * norm1 (length g) (V y))%Q.
+Proof.
+  intros Hg [Ha0 Ha1] Ly Hxs.
+  destruct (rh_error_proof g alpha y K Hg Ha0 Ly) as [_ Hr].
+  set (n := length g) in *. set (M := PT alpha (P g)) in *. set (s := rh g alpha y K) in *.
+  set (B := (apow alpha (S K) * norm1 n (V y))%Q) in *.
+  assert (H := residual_bound_graph g alpha (V y) (fun j => (1 - alpha) * V s j)%Q xs ((1 - alpha) * B)%Q Hg (conj Ha0 Ha1)).
+  fold n in H.
+  setoid_replace B with ((1 - alpha) * B / (1 - alpha))%Q by (field; lra).
+  apply H; [|exact Hxs].
+  rewrite (norm1_ext n _ (fun j => (1 - alpha) * (V s j - (mv n M (V s) j + V y j)))%Q).
+  2:{ intros j Hj. fold M. rewrite mv_scale. ring. }
+  unfold norm1.
+  rewrite (bsum_ext n _ (fun j => (1 - alpha) * Qabs (V s j - (mv n M (V s) j + V y j)))%Q).
+  2:{ intros j Hj. rewrite Qabs_Qmult. rewrite (Qabs_pos (1 - alpha)) by lra. reflexivity. }
+  rewrite bsum_scale. unfold norm1 in Hr. nra.
+Qed.
+
+(* ------------------------------------------------------------------------------------------ *)
+(** * D-iteration (sequential sweep) *)
+
+Lemma upd_length l j v : length (upd l j v) = length l.
+Proof. revert j. induction l as [|x l IH]; intros [|j]; cbn; auto. Qed.
+
+Lemma V_upd l j v i : j < length l -> V (upd l j v) i = if Nat.eqb i j then v else V l i.
+Proof.
+  revert j i. induction l as [|x l IH]; intros [|j] [|i] H; cbn in *; try lia; auto.
+  apply (IH j i). lia.
+Qed.
+
+Lemma upd_out l j v : length l <= j -> upd l j v = l.
+Proof. revert j. induction l as [|x l IH]; intros [|j] H; cbn in *; try lia; auto. f_equal. apply IH. lia. Qed.
+
+Lemma push_row_spec n tmp r fl :
+  wf_row n r = true -> length fl = n ->
+  length (push_row tmp r fl) = n /\ forall j, j < n -> (V (push_row tmp r fl) j == V fl j + tmp * entry r j)%Q.
+Proof.
+  unfold push_row. revert fl. induction r as [|e r IH]; intros fl Hwf Lfl.
+  - cbn [fold_left]. split; [exact Lfl|]. intros j _. rewrite entry_nil. ring.
+  - cbn [wf_row forallb] in Hwf. apply andb_prop in Hwf. destruct Hwf as [He Hr]. apply Nat.ltb_lt in He.
+    cbn [fold_left].
+    set (fl' := upd fl (fst e) (Qred (V fl (fst e) + tmp * snd e))).
+    assert (Lfl' : length fl' = n) by (unfold fl'; rewrite upd_length; exact Lfl).
+    destruct (IH fl' Hr Lfl') as [L H]. split; [exact L|].
+    intros j Hj. rewrite (H j Hj). unfold fl'. rewrite V_upd by (rewrite Lfl; exact He).
+    rewrite entry_cons. rewrite (Nat.eqb_sym j (fst e)).
+    destruct (Nat.eqb (fst e) j) eqn:E.
+    + apply Nat.eqb_eq in E. subst j. rewrite Qred_correct. ring.
+    + ring.
+Qed.
+
+(** The invariant of the kernel, stated without inverses: with z = xs - scores (xs any solution),
+    z - M z = fluid; fluid is non-negative and [residu] is the total mass of fluid. *)
+Definition dit_inv (g : wgraph) (alpha : Q) (xs : vec) (s : dstate) : Prop :=
+  let n := length g in
+  let M := PT alpha (P g) in
+  length (d_scores s) = n /\ length (d_fluid s) = n /\
+  (forall j, j < n -> ((xs j - V (d_scores s) j) - mv n M (fun i => xs i - V (d_scores s) i) j == V (d_fluid s) j)%Q) /\
+  (forall j, j < n -> (0 <= V (d_fluid s) j)%Q) /\
+  (d_residu s == vsum n (V (d_fluid s)))%Q.
+
+Lemma has_out_zero_row g i :
+  nonneg_graph g = true -> has_out g i = 0%Q -> wrow_of (normalize g) i = [].
+Proof.
+  intros Hnn H. rewrite wrow_of_normalize. unfold has_out in H.
+  assert (Hr : nonneg_row (wrow_of g i) = true) by (unfold wrow_of; apply (forallb_nth nonneg_row); [exact Hnn|reflexivity]).
+  destruct (Qeq_bool (sumq (map snd (wrow_of g i))) 0) eqn:E; [|discriminate].
+  apply Qeq_bool_iff in E. unfold normalize_row.
+  assert (E2 : Qeq_bool (Qred (row_norm (wrow_of g i))) 0 = true).
+  { apply Qeq_bool_iff. rewrite Qred_correct. rewrite (row_norm_nonneg_eq _ Hr). exact E. }
+  rewrite E2. reflexivity.
+Qed.
+
+Lemma mv_delta n M (z : vec) i c j :
+  i < n -> (mv n M (fun k => z k - (if Nat.eqb k i then c else 0)) j == mv n M z j - c * M j i)%Q.
+Proof.
+  intros Hi. rewrite mv_minus. unfold mv at 2.
+  rewrite (bsum_ext n _ (fun k => if Nat.eqb k i then M j i * c else 0)%Q).
+  2:{ intros k _. destruct (Nat.eqb k i) eqn:E; [apply Nat.eqb_eq in E; subst k; reflexivity|ring]. }
+  rewrite bsum_delta by exact Hi. ring.
+Qed.
+
+(** One node: the new state in closed form. *)
+Lemma dit_node_spec g alpha s i :
+  good_graph g -> length (d_scores s) = length g -> length (d_fluid s) = length g -> i < length g ->
+  (0 < V (d_fluid s) i)%Q ->
+  let s' := dit_node (normalize g) alpha s i in
+  let sent := V (d_fluid s) i in
+  length (d_scores s') = length g /\ length (d_fluid s') = length g /\
+  (forall j, j < length g -> (V (d_scores s') j == V (d_scores s) j + (if Nat.eqb j i then sent else 0))%Q) /\
+  (forall j, j < length g -> (V (d_fluid s') j == (if Nat.eqb j i then 0 else V (d_fluid s) j) + sent * (alpha * P g i j))%Q) /\
+  (d_residu s' == d_residu s - sent * (1 - alpha * has_out g i))%Q.
+Proof.
+  intros [Hwf Hnn] Ls Lf Hi Hpos s' sent. set (n := length g) in *.
+  unfold s', dit_node. fold sent. assert (Hlt : Qltb 0 sent = true) by (apply Qltb_lt; exact Hpos). rewrite Hlt.
+  assert (Hsc : forall j, j < n ->
+     (V (upd (d_scores s) i (Qred (V (d_scores s) i + sent))) j == V (d_scores s) j + (if Nat.eqb j i then sent else 0))%Q).
+  { intros j Hj. rewrite V_upd by (rewrite Ls; exact Hi). destruct (Nat.eqb j i) eqn:E.
+    - apply Nat.eqb_eq in E. subst j. apply Qred_correct.
+    - ring. }
+  assert (Hrow : wf_row n (wrow_of (normalize g) i) = true).
+  { rewrite wrow_of_normalize. apply normalize_row_facts; unfold wrow_of;
+      [apply (forallb_nth (wf_row n)) | apply (forallb_nth nonneg_row)]; try assumption; reflexivity. }
+  destruct (P_facts g Hwf Hnn) as (_ & _ & Hout).
+  destruct (wrow_of (normalize g) i) as [|e r] eqn:Er.
+  - cbn [d_scores d_fluid d_residu]. rewrite !upd_length.
+    split; [exact Ls|]. split; [exact Lf|]. split; [exact Hsc|]. split.
+    + intros j Hj. rewrite V_upd by (rewrite Lf; exact Hi). unfold P, Pn. rewrite Er, entry_nil.
+      destruct (Nat.eqb j i); ring.
+    + rewrite Qred_correct.
+      assert (H0 : has_out g i = 0%Q).
+      { destruct (Hout i) as [H|H]; [exact H|]. exfalso.
+        destruct (P_facts g Hwf Hnn) as (_ & Hs & _). specialize (Hs i). rewrite H in Hs.
+        assert (Hz0 : (bsum (length g) (P g i) == 0)%Q).
+        { apply bsum_0. intros j _. unfold P, Pn. rewrite Er. rewrite entry_nil. reflexivity. }
+        lra. }
+      rewrite H0. ring.
+  - cbn [d_scores d_fluid d_residu].
+    assert (L0 : length (upd (d_fluid s) i 0) = n) by (rewrite upd_length; exact Lf).
+    destruct (push_row_spec n (sent * alpha)%Q (e :: r) (upd (d_fluid s) i 0) Hrow L0) as [Lp Hp].
+    rewrite upd_length. split; [exact Ls|]. split; [exact Lp|]. split; [exact Hsc|]. split.
+    + intros j Hj. rewrite (Hp j Hj). rewrite V_upd by (rewrite Lf; exact Hi).
+      unfold P, Pn. rewrite Er. destruct (Nat.eqb j i); ring.
+    + rewrite Qred_correct.
+      assert (H1 : has_out g i = 1%Q).
+      { destruct (Hout i) as [H|H]; [|exact H]. exfalso.
+        rewrite (has_out_zero_row g i Hnn H) in Er. discriminate. }
+      rewrite H1. ring.
+Qed.
+
+Lemma dit_node_inv g alpha y (xs : vec) s i :
+  good_graph g -> (0 <= alpha)%Q ->
+  is_solution (length g) (P g) alpha y xs ->
+  dit_inv g alpha xs s -> dit_inv g alpha xs (dit_node (normalize g) alpha s i).
+Proof.
+  intros Hg Ha Hxs (Ls & Lf & Hz & Hnonneg & Hres). set (n := length g) in *.
+  destruct (Qlt_le_dec 0 (V (d_fluid s) i)) as [Hpos|Hle].
+  2:{ unfold dit_node. assert (E : Qltb 0 (V (d_fluid s) i) = false).
+      { destruct (Qltb 0 (V (d_fluid s) i)) eqn:E; [apply Qltb_lt in E; lra|reflexivity]. }
+      rewrite E. repeat split; assumption. }
+  assert (Hi : i < n).
+  { destruct (Nat.lt_ge_cases i n) as [H|H]; [exact H|]. rewrite V_overflow in Hpos by (rewrite Lf; exact H). lra. }
+  destruct (dit_node_spec g alpha s i Hg Ls Lf Hi Hpos) as (Ls' & Lf' & Hsc & Hfl & Hrs).
+  set (s' := dit_node (normalize g) alpha s i) in *. set (sent := V (d_fluid s) i) in *.
+  destruct Hg as [Hwf Hnn]. destruct (P_facts g Hwf Hnn) as (Hpp & Hps & Hout).
+  split; [exact Ls'|]. split; [exact Lf'|]. split; [|split].
+  - intros j Hj. cbv zeta. fold n.
+    rewrite (mv_ext n (PT alpha (P g)) (fun k => xs k - V (d_scores s') k)%Q
+                    (fun k => (xs k - V (d_scores s) k) - (if Nat.eqb k i then sent else 0))%Q).
+    2:{ intros k Hk. rewrite (Hsc k Hk). ring. }
+    rewrite (mv_delta n (PT alpha (P g)) (fun k => xs k - V (d_scores s) k)%Q i sent j Hi).
+    rewrite (Hsc j Hj), (Hfl j Hj). assert (Hzj := Hz j Hj). cbv zeta in Hzj. fold n in Hzj.
+    set (A := mv n (PT alpha (P g)) (fun k => (xs k - V (d_scores s) k)%Q) j) in *.
+    unfold PT at 1.
+    destruct (Nat.eqb j i) eqn:E.
+    + apply Nat.eqb_eq in E. subst j. fold sent in Hzj.
+      set (t := (sent * (alpha * P g i i))%Q). lra.
+    + set (t := (sent * (alpha * P g i j))%Q). lra.
+  - intros j Hj. rewrite (Hfl j Hj). assert (H1 := Hpp i j). assert (H2 := Hnonneg j Hj).
+    assert (H3 : (0 <= alpha * P g i j)%Q) by nra.
+    assert (H4 : (0 <= sent * (alpha * P g i j))%Q) by nra.
+    destruct (Nat.eqb j i); lra.
+  - rewrite Hrs, Hres. unfold vsum. fold n.
+    rewrite (bsum_ext n (V (d_fluid s')) (fun j => (if Nat.eqb j i then 0 else V (d_fluid s) j) + sent * (alpha * P g i j))%Q Hfl).
+    rewrite bsum_plus.
+    assert (Hm : (bsum n (fun j => sent * (alpha * P g i j)) == sent * (alpha * has_out g i))%Q).
+    { rewrite bsum_scale. rewrite bsum_scale. assert (Hpsi := Hps i). fold n in Hpsi.
+      change (bsum n (fun i0 => P g i i0)) with (bsum n (P g i)). rewrite Hpsi. reflexivity. }
+    rewrite Hm.
+    assert (Hsplit : (bsum n (V (d_fluid s)) == bsum n (fun j => if Nat.eqb j i then 0 else V (d_fluid s) j) + sent)%Q).
+    { rewrite <- (bsum_delta n i sent Hi). rewrite <- bsum_plus. apply bsum_ext. intros j _.
+      destruct (Nat.eqb j i) eqn:E; [apply Nat.eqb_eq in E; subst j; unfold sent; ring|ring]. }
+    rewrite Hsplit. ring.
+Qed.
+
+Lemma dit_sweep_inv g alpha y xs s :
+  good_graph g -> (0 <= alpha)%Q -> is_solution (length g) (P g) alpha y xs ->
+  dit_inv g alpha xs s -> dit_inv g alpha xs (dit_sweep (normalize g) alpha s).
+Proof.
+  intros Hg Ha Hxs. unfold dit_sweep. generalize (seq 0 (length (normalize g))). intros l. revert s.
+  induction l as [|i l IH]; intros s Hs; cbn [fold_left]; [exact Hs|].
+  apply IH. apply (dit_node_inv g alpha y xs s i Hg Ha Hxs Hs).
+Qed.
+
+Lemma dit_loop_inv g alpha y xs k tol s :
+  good_graph g -> (0 <= alpha)%Q -> is_solution (length g) (P g) alpha y xs ->
+  dit_inv g alpha xs s -> dit_inv g alpha xs (fst (dit_loop k (normalize g) alpha tol s)).
+Proof.
+  intros Hg Ha Hxs. revert s. induction k as [|k IH]; intros s Hs; cbn [dit_loop]; [exact Hs|].
+  assert (Hs' := dit_sweep_inv g alpha y xs s Hg Ha Hxs Hs).
+  destruct (Qltb _ _); [exact Hs'|]. apply IH. exact Hs'.
+Qed.
+
+Lemma dit_init_inv g alpha y xs :
+  good_graph g -> (0 <= alpha <= 1)%Q -> length y = length g ->
+  (forall j, j < length g -> (0 <= V y j)%Q) -> (vsum (length g) (V y) == 1)%Q ->
+  is_solution (length g) (P g) alpha (V y) xs ->
+  dit_inv g alpha xs (dit_init (length g) alpha y).
+Proof.
+  intros Hg [Ha0 Ha1] Ly Hy Hsy Hxs. set (n := length g) in *.
+  assert (Hz : forall j, V (repeat 0%Q n) j = 0%Q).
+  { intros j. unfold V, nthq. destruct (Nat.lt_ge_cases j n) as [H|H].
+    - apply (nthq_repeat 0%Q n j H).
+    - apply nth_overflow. rewrite repeat_length. exact H. }
+  unfold dit_init, dit_inv. cbn [d_scores d_fluid d_residu]. fold n.
+  split; [apply repeat_length|]. split; [rewrite vscale_length; exact Ly|]. split; [|split].
+  - intros j Hj. rewrite V_vscale.
+    rewrite (mv_ext n (PT alpha (P g)) (fun i => xs i - V (repeat 0%Q n) i)%Q xs) by (intros k _; rewrite Hz; ring).
+    rewrite Hz. rewrite (Hxs j Hj) at 1. ring.
+  - intros j Hj. rewrite V_vscale. assert (H := Hy j Hj). nra.
+  - unfold vsum. rewrite (bsum_ext n _ (fun j => (1 - alpha) * V y j)%Q) by (intros j _; apply V_vscale).
+    rewrite bsum_scale. unfold vsum in Hsy. rewrite Hsy. ring.
+Qed.
+
+(** Remaining fluid mass bounds the error. *)
+Lemma dit_inv_error g alpha xs s :
+  good_graph g -> (0 <= alpha < 1)%Q -> dit_inv g alpha xs s ->
+  (0 <= d_residu s)%Q /\
+  (norm1 (length g) (fun j => xs j - V (d_scores s) j) <= d_residu s / (1 - alpha))%Q.
+Proof.
+  intros [Hwf Hnn] [Ha0 Ha1] (Ls & Lf & Hz & Hnonneg & Hres). set (n := length g) in *. cbv zeta in Hz.
+  destruct (Ma_facts g alpha Hwf Hnn Ha0) as (Hp & Hc & _). fold n in Hp, Hc.
+  assert (Hmass : (d_residu s == norm1 n (V (d_fluid s)))%Q).
+  { rewrite Hres. unfold vsum, norm1. apply bsum_ext. intros j Hj. rewrite Qabs_pos by (apply Hnonneg; exact Hj). reflexivity. }
+  split; [rewrite Hmass; apply norm1_nonneg|].
+  set (z := fun j => (xs j - V (d_scores s) j)%Q).
+  assert (H := residual_bound_gen n (Ma (normalize g) alpha) alpha (V (d_fluid s)) (fun _ => 0%Q) z (d_residu s) Hp Hc Ha1).
+  assert (Hn : (norm1 n (fun i => 0 - z i) == norm1 n z)%Q).
+  { apply bsum_ext. intros j _. setoid_replace (0 - z j)%Q with (- z j)%Q by ring. apply Qabs_opp. }
+  rewrite <- Hn. apply H.
+  - rewrite Hmass. apply Qle_lteq. right. apply bsum_ext. intros j _.
+    assert (H0 : (mv n (Ma (normalize g) alpha) (fun _ => 0%Q) j == 0)%Q) by (unfold mv; apply bsum_0; intros; ring).
+    rewrite H0. setoid_replace (0 - (0 + V (d_fluid s) j))%Q with (- V (d_fluid s) j)%Q by ring. apply Qabs_opp.
+  - intros j Hj. unfold z. rewrite <- (Hz j Hj). change (PT alpha (P g)) with (Ma (normalize g) alpha). ring.
+Qed.
+
+Theorem diteration_invariant_proof g alpha y n_iter tol (xs : vec) :
+  good_graph g -> (0 <= alpha < 1)%Q -> length y = length g ->
+  (forall j, j < length g -> (0 <= V y j)%Q) -> (vsum (length g) (V y) == 1)%Q ->
+  is_solution (length g) (P g) alpha (V y) xs ->
+  let st := diteration_state g alpha y n_iter tol in
+  dit_inv g alpha xs (fst st) /\
+  (0 <= d_residu (fst st))%Q /\
+  (norm1 (length g) (fun j => xs j - V (d_scores (fst st)) j) <= d_residu (fst st) / (1 - alpha))%Q /\
+  (snd st = true -> (norm1 (length g) (fun j => xs j - V (d_scores (fst st)) j) < tol)%Q).
+Proof.
+  intros Hg [Ha0 Ha1] Ly Hy Hsy Hxs st.
+  assert (Hinit := dit_init_inv g alpha y xs Hg (conj Ha0 (Qlt_le_weak _ _ Ha1)) Ly Hy Hsy Hxs).
+  assert (Hinv : dit_inv g alpha xs (fst st)).
+  { unfold st, diteration_state. apply (dit_loop_inv g alpha (V y) xs); assumption. }
+  destruct (dit_inv_error g alpha xs (fst st) Hg (conj Ha0 Ha1) Hinv) as [H0 Herr].
+  split; [exact Hinv|]. split; [exact H0|]. split; [exact Herr|].
+  intros Hstop.
+  assert (Hres : (d_residu (fst st) < tol * (1 - alpha))%Q).
+  { unfold st, diteration_state in *. clear Hinv H0 Herr. revert Hstop.
+    generalize (dit_init (length g) alpha y). generalize n_iter.
+    induction n_iter0 as [|k IH]; intros s; cbn [dit_loop]; [cbn; discriminate|].
+    destruct (Qltb (d_residu (dit_sweep (normalize g) alpha s)) (tol * (1 - alpha))) eqn:E.
+    - intros _. cbn [fst]. apply Qltb_lt. exact E.
+    - apply IH. }
+  eapply Qle_lt_trans; [exact Herr|]. apply Qlt_shift_div_r; lra.
+Qed.
+
+(** Every sweep multiplies the remaining mass by at most alpha (each node sends at least the fluid it
+    held when the sweep started, and a (1 - alpha) share of what is sent leaves the system). *)
+Lemma dit_sweep_mass g alpha y xs s0 :
+  good_graph g -> (0 <= alpha <= 1)%Q -> is_solution (length g) (P g) alpha y xs ->
+  dit_inv g alpha xs s0 ->
+  (d_residu (dit_sweep (normalize g) alpha s0) <= alpha * d_residu s0)%Q.
+Proof.
+  intros Hg [Ha0 Ha1] Hxs H0. set (n := length g) in *.
+  set (f0 := V (d_fluid s0)). set (R0 := d_residu s0).
+  set (Q := fun (k : nat) (s : dstate) =>
+              dit_inv g alpha xs s /\
+              (d_residu s <= R0 - (1 - alpha) * bsum k f0)%Q /\
+              (forall j, k <= j -> j < n -> (f0 j <= V (d_fluid s) j)%Q)).
+  assert (Hstep : forall k s, k < n -> Q k s -> Q (S k) (dit_node (normalize g) alpha s k)).
+  { intros k s Hk (Hinv & Hres & Hmon).
+    assert (Hinv' := dit_node_inv g alpha y xs s k Hg Ha0 Hxs Hinv).
+    destruct Hinv as (Ls & Lf & _ & Hnonneg & _).
+    split; [exact Hinv'|].
+    destruct (Qlt_le_dec 0 (V (d_fluid s) k)) as [Hpos|Hle].
+    - destruct (dit_node_spec g alpha s k Hg Ls Lf Hk Hpos) as (_ & _ & _ & Hfl & Hrs).
+      destruct Hg as [Hwf Hnn]. destruct (P_facts g Hwf Hnn) as (Hpp & _ & Hout).
+      split.
+      + rewrite Hrs. cbn [bsum]. assert (Hm := Hmon k (le_n k) Hk).
+        set (sent := V (d_fluid s) k) in *.
+        assert (Ho : (sent * (1 - alpha) <= sent * (1 - alpha * has_out g k))%Q).
+        { destruct (Hout k) as [-> | ->]; nra. }
+        assert (Hf : ((1 - alpha) * f0 k <= sent * (1 - alpha))%Q) by nra.
+        lra.
+      + intros j Hkj Hj. rewrite (Hfl j Hj).
+        assert (E : Nat.eqb j k = false) by (apply Nat.eqb_neq; lia). rewrite E.
+        assert (H1 := Hpp k j). assert (H2 := Hmon j (Nat.lt_le_incl _ _ Hkj) Hj).
+        assert (H3 : (0 <= alpha * P g k j)%Q) by nra.
+        assert (H4 : (0 <= V (d_fluid s) k * (alpha * P g k j))%Q) by nra.
+        lra.
+    - assert (E : dit_node (normalize g) alpha s k = s).
+      { unfold dit_node. destruct (Qltb 0 (V (d_fluid s) k)) eqn:E; [apply Qltb_lt in E; lra|reflexivity]. }
+      rewrite E. split.
+      + cbn [bsum]. assert (Hm := Hmon k (le_n k) Hk). nra.
+      + intros j Hkj Hj. apply Hmon; [lia|exact Hj]. }
+  assert (Hfold : forall m k s, k + m = n -> Q k s -> Q n (fold_left (dit_node (normalize g) alpha) (seq k m) s)).
+  { induction m as [|m IH]; intros k s Hkm HQ; cbn [seq fold_left].
+    - replace n with k by lia. exact HQ.
+    - apply (IH (S k)); [lia|]. apply Hstep; [lia|exact HQ]. }
+  assert (HQ0 : Q 0 s0).
+  { split; [exact H0|]. split; [cbn [bsum]; unfold R0; lra|]. intros j _ _. unfold f0. lra. }
+  destruct (Hfold n 0 s0 (Nat.add_0_l n) HQ0) as (_ & Hres & _).
+  unfold dit_sweep. assert (Ln : length (normalize g) = n) by (unfold normalize; apply map_length). rewrite Ln.
+  destruct H0 as (_ & _ & _ & _ & HR). fold R0 in HR. fold n in HR. unfold vsum in HR. fold f0 in HR.
+  fold R0. rewrite <- HR in Hres. nra.
+Qed.
+
+Lemma dit_loop_mass g alpha y xs k s :
+  good_graph g -> (0 <= alpha < 1)%Q -> is_solution (length g) (P g) alpha y xs ->
+  dit_inv g alpha xs s ->
+  (d_residu (fst (dit_loop k (normalize g) alpha 0 s)) <= apow alpha k * d_residu s)%Q.
+Proof.
+  intros Hg [Ha0 Ha1] Hxs. revert s. induction k as [|k IH]; intros s Hinv; cbn [dit_loop apow fst]; [lra|].
+  assert (Hinv' := dit_sweep_inv g alpha y xs s Hg Ha0 Hxs Hinv).
+  assert (Hm := dit_sweep_mass g alpha y xs s Hg (conj Ha0 (Qlt_le_weak _ _ Ha1)) Hxs Hinv).
+  destruct (dit_inv_error g alpha xs _ Hg (conj Ha0 Ha1) Hinv') as [Hpos _].
+  assert (E : Qltb (d_residu (dit_sweep (normalize g) alpha s)) (0 * (1 - alpha)) = false).
+  { destruct (Qltb _ _) eqn:E; [apply Qltb_lt in E; lra|reflexivity]. }
+  rewrite E. assert (H := IH _ Hinv'). assert (Hp := apow_nonneg alpha k Ha0).
+  set (r1 := d_residu (dit_sweep (normalize g) alpha s)) in *. set (r0 := d_residu s) in *.
+  set (rk := d_residu (fst (dit_loop k (normalize g) alpha 0 (dit_sweep (normalize g) alpha s)))) in *.
+  assert (H2 : (apow alpha k * r1 <= apow alpha k * (alpha * r0))%Q) by nra. lra.
+Qed.
+
+(** Without the tolerance stop (tol = 0 is never met), n_iter sweeps leave at most alpha^n_iter (1-alpha)
+    of fluid, hence an error of at most alpha^n_iter. *)
+Theorem diteration_mass_decreases_proof g alpha y n_iter (xs : vec) :
+  good_graph g -> (0 <= alpha < 1)%Q -> length y = length g ->
+  (forall j, j < length g -> (0 <= V y j)%Q) -> (vsum (length g) (V y) == 1)%Q ->
+  is_solution (length g) (P g) alpha (V y) xs ->
+  (d_residu (fst (diteration_state g alpha y n_iter 0)) <= apow alpha n_iter * (1 - alpha))%Q /\
+  (norm1 (length g) (fun j => xs j - V (diteration g alpha y n_iter 0) j) <= apow alpha n_iter)%Q.
+Proof.
+  intros Hg [Ha0 Ha1] Ly Hy Hsy Hxs.
+  assert (Hinit := dit_init_inv g alpha y xs Hg (conj Ha0 (Qlt_le_weak _ _ Ha1)) Ly Hy Hsy Hxs).
+  assert (Hm := dit_loop_mass g alpha (V y) xs n_iter _ Hg (conj Ha0 Ha1) Hxs Hinit).
+  cbn [dit_init d_residu] in Hm.
+  split; [exact Hm|].
+  destruct (diteration_invariant_proof g alpha y n_iter 0 xs Hg (conj Ha0 Ha1) Ly Hy Hsy Hxs) as (_ & _ & Herr & _).
+  unfold diteration. eapply Qle_trans; [exact Herr|].
+  apply Qle_shift_div_r; [lra|]. exact Hm.
+Qed.
+
+(* ------------------------------------------------------------------------------------------ *)
+(** * The push kernel does not compute PageRank (recorded finding D4) *)
+
+Fixpoint insert_all {A} (x : A) (l : list A) : list (list A) :=
+  match l with
+  | [] => [[x]]
+  | y :: t => (x :: y :: t) :: map (cons y) (insert_all x t)
+  end.
+Fixpoint perms {A} (l : list A) : list (list A) :=
+  match l with
+  | [] => [[]]
+  | x :: t => flat_map (insert_all x) (perms t)
+  end.
+
+Definition house : wgraph := map (map (fun j => (j, 1%Q))) [[1; 4]; [0; 2; 4]; [1; 3]; [2; 4]; [0; 1; 3]].
+Definition house_solution : list Q := [412 # 2451; 1991 # 8170; 2111 # 12255; 2111 # 12255; 1991 # 8170]%Q.
+
+(** The output of the faithful push model is further than [gap] (L1) from the PageRank vector. *)
+Definition push_far (g : wgraph) (alpha : Q) (y xs : list Q) (gap : Q) (order : list nat) (tol : Q) : bool :=
+  match get_pagerank g y alpha 0 tol Push [] order with
+  | None => false
+  | Some out => Qltb gap (norm1 (length g) (fun j => V out j - V (vnormalize xs) j)%Q)
+  end.
+
+(** On the house graph (5 nodes, degrees 2 and 3), uniform restart, alpha = 0.85: whatever order
+    argsort returns and for tolerances from 0.1 down to 1e-9 the work-list empties and the result is
+    more than 0.02 away (L1) from the PageRank vector (which [solution_check] certifies exactly). *)
+Theorem push_refuted_proof :
+  good_graph house /\
+  solution_check house (85 # 100) (repeat (1 # 5)%Q 5) house_solution = true /\
+  forall order tol, In order (perms [0; 1; 2; 3; 4]) -> In tol [1 # 10; 1 # 1000; 1 # 1000000000]%Q ->
+    push_far house (85 # 100) (repeat (1 # 5)%Q 5) house_solution (2 # 100) order tol = true.
+Proof.
+  split; [split; reflexivity|]. split; [vm_compute; reflexivity|].
+  assert (H : forallb (fun order => forallb (push_far house (85 # 100) (repeat (1 # 5)%Q 5) house_solution (2 # 100) order)
+                                         [1 # 10; 1 # 1000; 1 # 1000000000]%Q) (perms [0; 1; 2; 3; 4]) = true)
+    by (vm_compute; reflexivity).
+  intros order tol Ho Ht. rewrite forallb_forall in H. specialize (H order Ho).
+  rewrite forallb_forall in H. exact (H tol Ht).
+Qed.
+
+Theorem surfer_operator_stochastic_proof (g : wgraph) (alpha : Q) (y x : list Q) :
+  good_graph g -> (0 <= alpha)%Q -> (vsum (length g) (V y) == 1)%Q ->
+  (vsum (length g) (V (surfer_matvec g alpha y x)) == vsum (length g) (V x))%Q /\
+  forall j, j < length g ->
+    (V (surfer_matvec g alpha y x) j == mv (length g) (surfer_kernel (P g) (has_out g) alpha (V y)) (V x) j)%Q.
+Proof.
+  intros Hg Ha Hy. split; [apply surfer_matvec_mass; assumption|].
+  intros j Hj. rewrite (surfer_matvec_spec g alpha y x j Hj). apply surfer_fun_kernel.
 Qed.
